@@ -12,6 +12,7 @@ import threading
 import time
 
 HOME = os.environ.get("VP_HOME", os.path.dirname(os.path.dirname(os.path.abspath(__file__))))
+EVDIR = os.environ.get("VP_EVIDENCE_DIR") or os.path.join(HOME, "evidence")
 REPO = os.environ.get("VP_REPO", "/repo")
 PY = sys.executable
 
@@ -241,7 +242,7 @@ def main():
     inconclusive = []
     discharged = 0
     twin_bad = []
-    replay_dir = os.path.join(HOME, "evidence", "replays", prop)
+    replay_dir = os.path.join(EVDIR, "replays", prop)
     nrep = 0
     for r in results:
         v = r["verdict"]
@@ -340,11 +341,10 @@ def main():
         "wall_s": round(wall, 1),
         "violations": len(violations),
     }
-    os.makedirs(os.path.join(HOME, "evidence"), exist_ok=True)
-    with open(os.path.join(HOME, "evidence", prop + ".json"), "w") as fh:
+    os.makedirs(os.path.join(EVDIR, "replays"), exist_ok=True)
+    with open(os.path.join(EVDIR, prop + ".json"), "w") as fh:
         json.dump(ev, fh, indent=1)
-    with open(os.path.join(HOME, "evidence", "replays", prop + ".last.json") if os.path.isdir(
-            os.path.join(HOME, "evidence", "replays")) else os.devnull, "w") as fh:
+    with open(os.path.join(EVDIR, "replays", prop + ".last.json"), "w") as fh:
         json.dump(results, fh, indent=1)
 
     for key, (f, path) in sorted(knownhits.items()):
